@@ -93,6 +93,19 @@ def make_peer_factory(world, netcfg):
 def build_world(scn):
     w = World(scn["seed"], scn)
     w.plans = {}
+    w.trace_events = []
+
+    def make_trace(name, token, sync):
+        if sync:
+            def trace(event_name, info):
+                w.trace_events.append((token, event_name))
+            return trace
+
+        async def atrace(event_name, info):
+            w.trace_events.append((token, event_name))
+        return atrace
+
+    w.make_trace = make_trace
     w.processed = {}
     w.outcomes = {}
     w.calls = {}
